@@ -47,6 +47,10 @@ WHAT = {
                                              "controller passes) and never closes the stored host's removal latch",
     "removed-latch-not-closed/replaced-object": "established relays through an object that a later Add of its address displaced are not closed "
                                                 "when the address is removed",
+    "removed-latch-not-closed/client-half-closed": "an established relay whose CLIENT has shut down its write side (backend still sending) is not "
+                                                   "closed when its host is removed",
+    "removed-latch-not-closed/backend-half-closed": "an established relay whose BACKEND has shut down its write side (client still open) is not "
+                                                    "closed when its host is removed",
 }
 
 
@@ -106,6 +110,8 @@ def ops_of(path):
             out.append([op, "addr%d" % s["a"]])
         elif op == "Conn":
             out.append([op, s["id"]])
+        elif op == "HalfClose":
+            out.append([op, s["id"], {"chc": "client", "bhc": "backend"}.get(s["side"], s["side"])])
         else:
             out.append([op])
     return out
@@ -163,7 +169,30 @@ def e2e(ctx, variant, found):
         raise kit.Inconclusive("only %d e2e behaviours" % len(behs))
     # directed behaviours (shortest path into a named window, by trap invariant)
     directed = 0
-    for trap in ("latch", "stalemark"):
+    # mandatory strata: a relay in each half-close state (open / client half-closed / backend half-closed) whose host
+    # is removed by Remove / by a ReplaceAll that drops it, directly or after an Add displaced the object the relay
+    # was established through: the shortest path per stratum out of one exhaustive TLC run
+    paths = emit(ctx, "BalanceE2EGen", "Strata_BalanceE2E_%s.cfg" % variant, "STRATUM")
+    best = {}
+    for b in paths:
+        last = b[-1]
+        keys = [(m["st"], last["op"], m["how"]) for m in (last.get("must") or [])]
+        if not keys:
+            keys = [(m["st"], last["op"], "displaced-closed") for s0 in b[:-1] if s0["op"] == "Add" for m in (s0.get("closedInfo") or [])]
+        for k in keys:
+            if k not in best or len(b) < len(best[k]):
+                best[k] = b
+    need = {(st, op) for st in ("open", "chc", "bhc") for op in ("Remove", "ReplaceAll")}
+    have = {(k[0], k[1]) for k in best if k[2] == "stored"}
+    if need - have:
+        raise kit.Inconclusive("strata not reachable in BalanceE2EGen: %s" % sorted(need - have))
+    strata = {}
+    for k in sorted(best):
+        strata[len(behs)] = "/".join(k)
+        behs.append({"policy": "rr", "steps": best[k]})
+        directed += 1
+    ctx.cov["e2e_strata"] = sorted("/".join(k) for k in best)
+    for trap in ("stalemark",):
         for policy in (("rr", "random", "lc") if t else ("rr",)):
             bs = emit(ctx, "BalanceE2EGen", "Trap_BalanceE2E_%s_%s_%s.cfg" % (trap, policy, variant), "TRAP")
             if not bs:
@@ -197,12 +226,17 @@ def e2e(ctx, variant, found):
         why = {}           # address -> last window tag that can leave a wrong entry for it
         closed_so_far = []
         first = {}
+        half = {}          # client id -> "open" | "chc" | "bhc"
         conn_back = {}     # client id -> backend that answered it (real)
         displaced = {}     # client id -> its backend's address was re-added while the relay was up
         for j, (s, o) in enumerate(zip(steps, r["obs"])):
             op = s["op"]
+            if o.get("skipped"):
+                continue
             closed_so_far = closed_so_far + (o.get("closedNow") or [])
-            ev = {"op": op, "beh": i, "step": j, "a": s.get("a", 0), "t": s.get("t", ""), "f": s.get("f", []),
+            open_before = [[cid, bk] for cid, bk in sorted(conn_back.items())]
+            ev = {"op": op, "open": open_before, "beh": i, "step": j, "a": s.get("a", 0), "t": s.get("t", ""), "f": s.get("f", []),
+                  "id": s.get("id", 0), "side": s.get("side", ""),
                   "backend": o.get("backend", 0), "established": bool(o.get("established")), "closedsofar": list(closed_so_far)}
             events.append(ev)
             idx = len(events)
@@ -246,6 +280,10 @@ def e2e(ctx, variant, found):
             if op == "Conn" and o.get("established"):
                 conn_back[s["id"]] = o["backend"]
                 displaced[s["id"]] = False
+                half[s["id"]] = "open"
+            if op == "HalfClose":
+                half[s["id"]] = s["side"]
+                stats["half_closes"] = stats.get("half_closes", 0) + 1
             if op == "Add" or op == "ReplaceAll":
                 for cid, a in conn_back.items():
                     if (op == "Add" and s["a"] == a) or (op == "ReplaceAll" and s["f"][a - 1] != "none"):
@@ -255,12 +293,25 @@ def e2e(ctx, variant, found):
                 stats["must_close"] += len(must)
                 still = o.get("mustStillOpen") or []
                 stats["closed_ok"] += len(must) - len(still)
+                for cid in must:
+                    k = "must_close_" + half.get(cid, "open")
+                    stats[k] = stats.get(k, 0) + 1
                 if still:
                     py_bad.setdefault(idx, set()).add("EstablishedClosed")
-                    sig = "removed-latch-not-closed/" + ("replaced-object" if displaced.get(still[0]) else "fresh-object")
+                    hs = half.get(still[0], "open")
+                    if hs != "open":
+                        sig = "removed-latch-not-closed/" + {"chc": "client-half-closed", "bhc": "backend-half-closed"}[hs]
+                    else:
+                        sig = "removed-latch-not-closed/" + ("replaced-object" if displaced.get(still[0]) else "fresh-object")
                     if "latch" not in first:
-                        first["latch"] = (sig, "connection %s to backend %d still open %d ms after its host was removed" % (
-                            still, conn_back.get(still[0], 0), o.get("deadlineMs", 0)), j, o.get("deadlineMs", 0))
+                        first["latch"] = (sig, "connection %s (%s) to backend %d still open 200 ms after its host was removed" % (
+                            still, {"open": "fully open", "chc": "client half-closed", "bhc": "backend half-closed"}[hs],
+                            conn_back.get(still[0], 0)), j, o.get("deadlineMs", 0))
+                elif o.get("backendStillOpen") and "latch" not in first:
+                    cid = o["backendStillOpen"][0]
+                    first["latch"] = ("backend-side-not-closed/" + half.get(cid, "open"),
+                                      "the client of connection %d saw the close, its backend %d did not see its side closed" % (
+                                          cid, conn_back.get(cid, 0)), j, o.get("deadlineMs", 0))
             for cid in (o.get("closedNow") or []):
                 conn_back.pop(cid, None)
         for grp, f in first.items():
@@ -281,7 +332,7 @@ def e2e(ctx, variant, found):
     # generous deadline and only reported if the relay is still open then
     generous = 10000 if t else 3000
     for sig in list(found):
-        if not (sig.startswith("removed-latch-not-closed") and found[sig]["art"]["kind"] == "c06-e2e"):
+        if not (sig.startswith(("removed-latch-not-closed", "backend-side-not-closed")) and found[sig]["art"]["kind"] == "c06-e2e"):
             continue
         art = found[sig]["art"]
         b1 = os.path.join(ctx.work, "rerun.ndjson")
@@ -290,7 +341,7 @@ def e2e(ctx, variant, found):
         ctx.harness(["c06-e2e", "-in", b1, "-out", r1, "-naddr", "2", "-long", "1", "-longms", str(generous)], timeout=300)
         rr = kit.read_ndjson(r1)[0]
         last = (rr.get("obs") or [{}])[-1]
-        if rr.get("err") or not last.get("mustStillOpen"):
+        if rr.get("err") or not (last.get("mustStillOpen") or last.get("backendStillOpen")):
             ctx.notes.append("%s: not reproduced with the %d ms deadline (flaky-inconclusive, not reported): %s"
                              % (sig, generous, rr.get("err") or last))
             del found[sig]
@@ -315,10 +366,18 @@ def e2e(ctx, variant, found):
         tlc_bad = {x["i"]: set(x["inv"]) for x in bad[-1]}
         ctx.cov["e2e_trace_validation"] = {"variant": v, "traces": stats["ran"], "events": len(events),
                                            "events_violating": len(tlc_bad)}
-        if tlc_bad != py_bad:
-            d = sorted(set(tlc_bad) ^ set(py_bad)) or sorted(k for k in tlc_bad if tlc_bad[k] != py_bad.get(k))
-            raise kit.Inconclusive("TLC and the check disagree on the verdict of recorded e2e events %s (e.g. %s)"
-                                   % (d[:5], json.dumps(events[d[0] - 1])[:500]))
+        # compare per behaviour up to the first violating event: after a violation the real system and the model
+        # may be in different states (e.g. a relay that was not closed lives on in reality only)
+        starts = [k + 1 for k, ev in enumerate(events) if ev["op"] == "Reset"] + [len(events) + 1]
+        for lo, hi in zip(starts, starts[1:]):
+            ft = min([k for k in tlc_bad if lo <= k < hi] or [0])
+            fp = min([k for k in py_bad if lo <= k < hi] or [0])
+            if ft != fp or (ft and tlc_bad[ft] != py_bad[fp]):
+                k = ft or fp
+                return ("TLC and the check disagree on the first violating event of e2e behaviour %d: TLC %s, check %s (e.g. %s)"
+                        % (events[lo - 1]["beh"], (ft, sorted(tlc_bad.get(ft, []))), (fp, sorted(py_bad.get(fp, []))),
+                           json.dumps(events[k - 1])[:400]))
+    return None
 
 
 def run(ctx):
@@ -352,6 +411,11 @@ def run(ctx):
     if t:
         mc(ctx, "BalanceE2E", "MC_BalanceE2E_fixed_random.cfg", workers=8, timeout=900)
     mc(ctx, "BalanceE2E", "MC_BalanceE2E_pinned.cfg", workers=4, timeout=300, expect_violated=["ConnToUsable", "EstablishedClosed", "EView"], count=False)
+    # anti-vacuity of the half-close strata: a watcher that exits when the client->backend copy ends (or with the
+    # first finished direction) must violate EstablishedClosed
+    mc(ctx, "BalanceE2E", "MC_BalanceE2E_watcher_chc.cfg", workers=2, timeout=300, expect_violated=["EstablishedClosed"], count=False)
+    if t:
+        mc(ctx, "BalanceE2E", "MC_BalanceE2E_watcher_first.cfg", workers=2, timeout=300, expect_violated=["EstablishedClosed"], count=False)
 
     # ---- 2. policy level replay
     found = {}
@@ -400,11 +464,13 @@ def run(ctx):
     ctx.cov["concurrency"] = {"cases": len(rr), "picks": sum(x["picks"] for x in rr)}
 
     # ---- 4./5. end to end + trace validation
-    e2e(ctx, variant, found)
+    disagreement = e2e(ctx, variant, found)
 
     for sig in sorted(found):
         e = found[sig]
         ctx.violation(sig, "%s [%s; %d cases]" % (WHAT.get(sig, sig), e["detail"], e["n"]), e["art"])
+    if disagreement:
+        raise kit.Inconclusive(disagreement)
     ctx.cov["rule"] = ("policy level: every transition of TLC's reduced state graph of BalanceGen as one path (distinct by policy + operation "
                        "sequence; non-trivial = contains a Pick); concurrency: (n,k) cases of 16 goroutines x n*k picks; e2e: seeded TLC "
                        "simulation of BalanceE2EGen with the step kind chosen uniformly (distinct by policy + operation sequence; "
